@@ -1,8 +1,8 @@
 #!/verif/.venv/bin/python
 # Replay of a solver counterexample against the unmodified code (no shims).
-# property=C04 kernel=roundtrip label=abstract:same_static_parts
+# property=C04 kernel=param label=legacy:param_roundtrip_completes
 import sys
 sys.path[:0] = ['/repo' + "/pulser-core", '/repo' + "/pulser-simulation", "/verif"]
 from symx.replay import replay
-sys.exit(replay(check='checks.c04', kernel='roundtrip', shape={'program': 'eom_beams_rb', 'codec': 'abstract'},
-                assignment={'buf#1.start': 0, 'buf#1.end': 5, 'buf#2.start': 0, 'buf#2.end': 6}, label='abstract:same_static_parts'))
+sys.exit(replay(check='checks.c04', kernel='param', shape={'program': 'vars_strided', 'codec': 'legacy'},
+                assignment={}, label='legacy:param_roundtrip_completes'))
